@@ -60,10 +60,25 @@ def run_op(op):
         return f"handled {type(e).__name__}"
 
 
-def gen_op(rng, depth=0):
-    op = {"op": "use_source", "source": rng.choice(SOURCES), "body": rng.choice(BODIES)}
+def all_sources():
+    """every source the library's constants file knows (read through the library), plus the typed list and an unknown one"""
+    try:
+        from midgard.math.constant import constant
+
+        cs = constant._constants
+        found = {src for name in cs.section_names for src in cs[name].as_dict().keys()} - {"__unit__"}
+    except Exception:  # noqa: BLE001
+        found = set()
+    return sorted(found | set(SOURCES))
+
+
+def gen_op(rng, depth=0, sources=None):
+    sources = sources or SOURCES
+    op = {"op": "use_source", "source": rng.choice(sources), "body": rng.choice(BODIES)}
     if depth < 2 and rng.random() < 0.3:
-        op["inner"] = gen_op(rng, depth + 1)
+        op["inner"] = gen_op(rng, depth + 1, sources)
+        if rng.random() < 0.3:          # the same source entered again inside its own block
+            op["inner"]["source"] = op["source"]
     return op
 
 
@@ -82,12 +97,19 @@ class _Prefixed:
 
 def history_cases(ctx, c13, impl, rng, n):
     pref = _Prefixed(ctx)
+    sources = all_sources()
+    todo = list(sources)                      # every source at least once, left by an exception
     for _ in range(n):
         steps = []
         f = c13.gen_file(rng, True, nsat=rng.randint(1, 4), nep=rng.randint(1, 3))
         for _k in range(rng.randint(2, 5)):
             for _j in range(rng.randint(1, 3)):
-                op = gen_op(rng)
+                op = gen_op(rng, sources=sources)
+                if todo:
+                    op = {"op": "use_source", "source": todo.pop(), "body": rng.choice(["read:R_sun", "raise:ValueError", "read:no_such_constant"])}
+                if op.get("inner") and op["inner"]["source"] == op["source"]:
+                    ctx.count("history op: source re-entered inside its own block")
+                ctx.count(f"history op: source {op['source']}")
                 out = run_op(op)
                 steps.append(op)
                 ctx.count(f"history op: use_source block {out}" + (" (nested)" if op.get("inner") else ""))
